@@ -648,7 +648,7 @@ def collect_cases(ctx, n: int, max_periods: int, notes: dict) -> list:
     return out
 
 
-def likelihood_disagreements(case, impl, res) -> list[str]:
+def likelihood_disagreements(case, impl, res, contributions=True) -> list[str]:
     """Compare the likelihood pieces (evaluated from the model's symbolic log form) with info[...]."""
     info, span = impl["info"], impl["span"]
     bad = []
@@ -656,8 +656,10 @@ def likelihood_disagreements(case, impl, res) -> list[str]:
         bad.append(f"neg_log_likelihood model={res['nll']!r} impl={float(info['neg_log_likelihood'])!r}")
     if not close(res["var_scale"], float(info["var_scale"])):
         bad.append(f"var_scale model={res['var_scale']!r} impl={float(info['var_scale'])!r}")
-    contrib = _arr(info["neg_log_likelihood_contributions"], span)
-    if len(contrib) != len(res["contributions"]):
+    contrib = _arr(info["neg_log_likelihood_contributions"], span) if contributions else []
+    if not contributions:
+        pass
+    elif len(contrib) != len(res["contributions"]):
         bad.append(f"contributions: {len(contrib)} values, model has {len(res['contributions'])}")
     else:
         for t, (a, b) in enumerate(zip(res["contributions"], contrib)):
@@ -716,7 +718,7 @@ def passthrough_problems(case, impl) -> list[str]:
     return bad
 
 
-def correspondence(ctx, n_cases: int, n_exact: int, max_periods: int, pid: str) -> CorrResult:
+def correspondence(ctx, n_cases: int, n_exact: int, max_periods: int, pid: str, contributions=True) -> CorrResult:
     res = CorrResult()
     notes: dict = {}
     pairs = collect_cases(ctx, n_cases, max_periods, notes)
@@ -805,7 +807,7 @@ def correspondence(ctx, n_cases: int, n_exact: int, max_periods: int, pid: str) 
             if not r["init_mse_ok"]:
                 res.disagreements.append(Disagreement("initial MSE does not solve the Lyapunov equation",
                                                       case_summary(case), None, impl["init_mse"].tolist()))
-            for msg in likelihood_disagreements(case, impl, r):
+            for msg in likelihood_disagreements(case, impl, r, contributions):
                 res.disagreements.append(Disagreement(f"likelihood: {msg} [{carrier}]", case_summary(case), None, msg))
     for item in notes.get("impl_raised", []):
         res.disagreements.append(Disagreement("kalman_filter raised", item["case"], None, item["error"]))
